@@ -14,7 +14,7 @@ func init() {
 		Technique:   "guarded-sink and loop skip-discipline rules on the SSA CFG of snapstate.doInstall's revision garbage collection; constant/phi provenance of the refresh.retain default; exhaustiveness of boot.InUse over the revisions a boot state reports",
 		Explanation: "Structural necessary conditions for 'a refresh keeps at most refresh.retain revisions and never discards one in use': (R1) in doInstall the garbage-collection loop discards (removeInactiveRevision) a revision only across inUse(name, thatRevision)==false, inUse coming from the caller-supplied inUseCheck, which a refresh must supply; the loop passes over a revision without discarding it only when it is in use, and is never left early; (R2) the loop over the revisions kept after the current one discards every one of them except the target revision, and is never left early; the target is never handed to removeInactiveRevision there; (R3) the whole discard block runs only for an installed snap that is not being reverted, and the retain count is decremented for the revision being added exactly when the target is not already in the sequence; (R4) refreshRetain falls back to 2 on classic and 3 otherwise exactly when no valid value is configured; (R5) boot.InUse answers from every revision the boot state reports (current and try snap), for kernel and base/core alike.",
 		NotDecided:  "the count bound itself (`i <= currentIndex-retain` arithmetic and the sequence rewriting that removes the target from the candidates); snaps whose type has no boot participant.",
-		Run:         func(c *Ctx) { runC12(c); runC12x(c) },
+		Run:         func(c *Ctx) { runC12(c); runC12x(c); runC12z(c) },
 	})
 }
 
